@@ -610,9 +610,15 @@ class DiscoveryComputation(MessagePassingComputation):
 
     def _on_computation_removed(self, _: DiscoveryName,
                                 msg: UnPublishComputationMessage):
-        self.discovery.unregister_computation(
-            msg.computation, msg.agent, publish=False)
-        pass
+        try:
+            self.discovery.unregister_computation(
+                msg.computation, msg.agent, publish=False)
+        except ValueError:
+            # Stale notification: we already know this computation on
+            # another agent (it has been re-registered in the meantime).
+            self.logger.info('Ignoring removal of computation %s from %s, '
+                             'it is now hosted on another agent',
+                             msg.computation, msg.agent)
 
     def _on_replica_publish(self, _, msg: PublishReplicaMessage):
         if msg.publish:
